@@ -254,6 +254,19 @@ func (r *Run) Finish() {
 	}
 	cov["counts"] = counts
 	cov["distinct"] = distinct
+	// small sets are written out (which scenarios, stores, variants were actually seen)
+	small := map[string][]string{}
+	for k, v := range r.sets {
+		if len(v) <= 48 && k != "nontrivial" {
+			for m := range v {
+				small[k] = append(small[k], m)
+			}
+			sort.Strings(small[k])
+		}
+	}
+	if len(small) > 0 {
+		cov["observed_sets"] = small
+	}
 	cov["evaluations"] = r.counts["evaluations"]
 	cov["distinct_nontrivial"] = len(r.sets["nontrivial"])
 	cov["rule"] = r.rule
